@@ -26,6 +26,10 @@ descriptor numbers (`FD_ZERO` / `FD_SET` / `FD_ISSET`), `timeval tv = {s, 0}`, `
 `::read(fd, buffer, length)` answered by the assumed kernel of lean/Nstd/Args/CSemSel.lean (= the kernel of ReadSel.lean with its `select`
 oracle); a call that never returns ends the function with a result code < -1.  lean/Nstd/Args/PropsSel.lean proves it equal to `ReadSel.read3`.
 
+Fourth output, lean/Nstd/Generated/ArgsStr.lean: `String::length(const char*)`, `String::find(const char*, char)`, `String::compare(const char*,
+const char*, usize)` of include/nstd/String.hpp (`while`, comma in a `for` step, pointer `<`, `(const uchar*)` reads); lean/Nstd/Args/PropsStr.lean
+proves them equal to `strlenL`, `findL`, `cmpN` -- the functions the primitives `Env.strlen / strfind / cmpEq` of the translated `read` are.
+
 Anything outside the understood subset is REFUSED (exception -> the check reports a broken tie).
 
 Translation scheme (assumptions, listed in the MANIFEST note):
@@ -50,6 +54,7 @@ VERIF = Path(__file__).resolve().parents[1]
 OUT = VERIF / "lean" / "Nstd" / "Generated" / "ArgsCode.lean"
 OUT_PROC = VERIF / "lean" / "Nstd" / "Generated" / "ArgsProc.lean"
 OUT_SEL = VERIF / "lean" / "Nstd" / "Generated" / "ArgsSel.lean"
+OUT_STR = VERIF / "lean" / "Nstd" / "Generated" / "ArgsStr.lean"
 
 
 class Refuse(Exception):
@@ -287,8 +292,17 @@ class Parser:
             cond = ("bool", True) if self.at(";") else self.expr()
             self.eat(";")
             step = None if self.at(")") else self.expr()
+            while step is not None and self.at(","):
+                self.eat(",")
+                step = ("seq", step, self.expr())
             self.eat(")")
             return ("for", init, cond, step, self.stmt())
+        if self.at("while"):
+            self.eat("while")
+            self.eat("(")
+            cond = self.expr()
+            self.eat(")")
+            return ("for", None, cond, None, self.stmt())
         if self.at("switch"):
             self.eat("switch")
             self.eat("(")
@@ -395,13 +409,16 @@ class Parser:
         if self.at("++"):
             self.eat()
             return ("un", "pre++", self.unary())
-        if self.at("(") and self.at(")", 2) and self.peek(1)[0] == "id" and self.peek(1)[1] in ("char", "pid_t", "int", "uint32"):
+        if self.at("(") and self.at(")", 2) and self.peek(1)[0] == "id" and self.peek(1)[1] in ("char", "pid_t", "int", "uint32", "usize"):
             ty = self.peek(1)[1]
             self.i += 3
             return ("cast", ty, self.unary())
         if self.at("(") and self.at("const", 1) and self.at("char", 2) and self.at("*", 3) and self.at(")", 4):
             self.i += 5
             return ("cast", "cstr", self.unary())
+        if self.at("(") and self.at("const", 1) and self.at("uchar", 2) and self.at("*", 3) and self.at(")", 4):
+            self.i += 5
+            return ("cast", "ucptr", self.unary())
         if self.at("&") and self.peek(1)[0] == "id":
             self.eat()
             return ("addr", self.eat()[1])
@@ -548,9 +565,9 @@ LEAN_KEYWORDS = {"end", "at", "from", "fun", "in", "do", "then", "else", "if", "
                  "where", "by", "def", "instance", "structure", "class", "variable", "local", "private", "mutual", "section",
                  "namespace", "import", "theorem", "example", "calc", "for", "return", "unless", "try", "catch", "finally", "mut",
                  "nomatch", "using", "prefix", "infix", "notation", "macro", "syntax", "deriving", "extends", "universe", "set_option"}
-LEAN_TYPE = {"fd": "Nat", "fdset": "List Nat", "rsel": "ReadSel.RS", "evs": "List ReadSel.Ev", "penv": "PEnv", "kern": "K", "cptr": "Ptr", "argvp": "Nat", "optp": "Nat", "usize": "Nat", "int": "Int", "bool": "Bool", "string": "List Nat",
+LEAN_TYPE = {"char": "Nat", "fd": "Nat", "fdset": "List Nat", "rsel": "ReadSel.RS", "evs": "List ReadSel.Ev", "penv": "PEnv", "kern": "K", "cptr": "Ptr", "argvp": "Nat", "optp": "Nat", "usize": "Nat", "int": "Int", "bool": "Bool", "string": "List Nat",
              "strlist": "List (List Nat)"}
-LEAN_DEFAULT = {"fd": "0", "fdset": "[]", "rsel": "⟨0, 0, [], [], false, false⟩", "evs": "[]", "penv": "[]", "kern": "⟨[], []⟩", "cptr": "Ptr.null", "argvp": "0", "optp": "0", "usize": "0", "int": "0", "bool": "false", "string": "[]", "strlist": "[]"}
+LEAN_DEFAULT = {"char": "0", "fd": "0", "fdset": "[]", "rsel": "⟨0, 0, [], [], false, false⟩", "evs": "[]", "penv": "[]", "kern": "⟨[], []⟩", "cptr": "Ptr.null", "argvp": "0", "optp": "0", "usize": "0", "int": "0", "bool": "false", "string": "[]", "strlist": "[]"}
 
 
 def fld(name):
@@ -589,7 +606,7 @@ class Fn:
 
     # -- helpers
     def rho(self):
-        return {"bool": "Bool", "int": "Int"}.get(self.ret, "Unit")
+        return {"bool": "Bool", "int": "Int", "usize": "Nat", "cptr": "Ptr"}.get(self.ret, "Unit")
 
     def sig(self):
         return f"(E : Env) (f : Nat) (s : {self.rec})" if self.fuel else f"(E : Env) (s : {self.rec})"
@@ -686,6 +703,12 @@ class Fn:
             def kk(ty, term):
                 if e[1] == "char" and ty == "int":
                     return k("char", f"(toChar {term})")
+                if e[1] == "usize" and ty == "usize":
+                    return k("usize", term)
+                if e[1] == "ucptr" and ty == "cptr":
+                    return k("ucptr", term)                 # the same address, read as unsigned char
+                if e[1] == "int" and ty == "uchar":
+                    return k("int", f"({term} : Int)")
                 if e[1] == "pid_t" and ty == "usize" and self.proc:
                     return k("usize", term)                 # a pid is a pid
                 if e[1] == "int" and ty == "usize" and self.proc:
@@ -700,6 +723,8 @@ class Fn:
                 def kk(ty, term):
                     if ty == "cptr":
                         return self.bind(f"E.load {term}", k, "char")
+                    if ty == "ucptr":
+                        return self.bind(f"E.load {term}", k, "uchar")
                     if ty == "argvp":
                         return self.bind(f"E.argvAt {term}", k, "cptr")
                     raise Refuse(f"{self.name}: dereference of a {ty}")
@@ -738,6 +763,8 @@ class Fn:
                             return self.bind(f"Ptr.sub {xa} {xb}", k, "cptr")
                         if ta == "cptr" and tb == "cptr":
                             return self.bind(f"Ptr.diff {xa} {xb}", k, "usize")
+                        if ta == "int" and tb in ("int", "uchar"):
+                            return k("int", f"({xa} - {self.convert('int', 'fd' if tb == 'uchar' else 'int', xb)})")
                     if op == "&":
                         if ta in nat and tb in nat:
                             return k("usize", f"({xa} &&& {xb})")
@@ -931,6 +958,10 @@ class Fn:
                 return self.cexpr(x, k1)
             def ka(ta, xa):
                 def kb(tb, xb):
+                    if ta == "cptr" and tb == "cptr" and op == "<":
+                        t = self.tmp()
+                        return (f"match Ptr.lt {xa} {xb} with\n| none => none\n| some {t} =>\n"
+                                + ind(f"if {t} = true then\n{ind(kt.text)}\nelse\n{ind(kf.text)}"))
                     chars, ints, nats = ("char", "charlit"), ("int", "charlit", "intlit", "fd"), ("usize", "intlit")
                     ok = ((ta in chars and tb in chars) or (ta in nats and tb in nats) or (ta == tb and ta in ("optp", "argvp"))
                           or (ta in ints and tb in ints and "int" in (ta, tb)))
@@ -984,6 +1015,14 @@ class Fn:
                 return self.ret_("()")
             if s[1] is None:
                 raise Refuse(f"{self.name}: return without a value")
+            if self.ret in ("usize", "cptr"):
+                def kr2(ty, term):
+                    if self.ret == "cptr" and ty == "intlit" and term == "0":
+                        return self.ret_("Ptr.null")
+                    if ty != self.ret:
+                        raise Refuse(f"{self.name}: return of a {ty}")
+                    return self.ret_(term)
+                return self.cexpr(s[1], kr2)
             if self.ret == "int":
                 def kr(ty, term):
                     if ty not in ("int", "intlit"):
@@ -1141,7 +1180,11 @@ class Fn:
         btext = self.cstmt(body, K("some (.next s)"), (K("some (.brk s)"), K("some (.next s)")))
         self.blocks.append(f"def {bname} (E : Env) (f : Nat) (s : {rec}) : Option (Ctl {rec} {rho}) :=\n{ind(btext)}")
         again = K(f"{lname} E f s")
-        steptext = self.cstmt(("expr", step), again, (None, None)) if step else again.text
+        def csteps(st, kk):
+            if st[0] == "seq":
+                return csteps(st[1], K(csteps(st[2], kk)))
+            return self.cstmt(("expr", st), kk, (None, None))
+        steptext = csteps(step, again) if step else again.text
         iterate = (f"match {bname} E f s with\n| none => none\n| some (.next s) =>\n{ind(steptext)}\n| some (.brk s) => some (.next s)\n"
                    f"| some (.ret r s) => some (.ret r s)\n| some .fuel => some .fuel")
         nb = self.nblk
@@ -1417,6 +1460,29 @@ def generate_proc(repo):
     return "\n".join(out)
 
 
+def generate_str(repo):
+    """String::length(const char*), String::find(const char*, char), String::compare(const char*, const char*, usize) of String.hpp"""
+    hpp = posix_branch(scan((Path(repo) / "include/nstd/String.hpp").read_text()))
+    specs = [
+        ("strLength", "SL", "usize", ["static", "usize", "length", "(", "const", "char", "*", "s", ")"], [("s", "cptr")],
+         "static usize String::length(const char* s)"),
+        ("strFind", "SF", "cptr", ["static", "const", "char", "*", "find", "(", "const", "char", "*", "in", ",", "char", "c", ")"],
+         [("in", "cptr"), ("c", "char")], "static const char* String::find(const char* in, char c)"),
+        ("strCompare", "SC", "int", ["static", "int", "compare", "(", "const", "char", "*", "s1", ",", "const", "char", "*", "s2", ",",
+                                     "usize", "len", ")"], [("s1", "cptr"), ("s2", "cptr"), ("len", "usize")],
+         "static int String::compare(const char* s1, const char* s2, usize len)"),
+    ]
+    out = ["/- generated by tools/gen_args.py from include/nstd/String.hpp — do not edit -/", "import Nstd.Args.CSem", "",
+           "set_option linter.unusedVariables false", "", "namespace Nstd.Args.GenStr", "open Nstd.Args Nstd.Args.C", ""]
+    for name, rec, ret, sig, params, doc in specs:
+        body = parse_body(find_body(hpp, sig, "String::" + sig[sig.index("(") - 1]), name)
+        f = Fn(name, rec, ret, dict(params), {}, {}, True)
+        blocks = f.function(body, "`" + doc + "`")
+        out += [f"structure {rec} where\n" + "".join(f"  {fld(v)} : {LEAN_TYPE[t]}\n" for v, t in f.vars.items()), "\n\n".join(blocks), ""]
+    out += ["end Nstd.Args.GenStr", ""]
+    return "\n".join(out)
+
+
 def generate_sel(repo):
     """ssize Process::read(void* buffer, usize length, uint& streams) (POSIX branch)"""
     cpp = posix_branch(scan((Path(repo) / "src/Process.cpp").read_text()))
@@ -1460,19 +1526,20 @@ def run(repo=None):
         text = generate(repo)
         ptext = generate_proc(repo)
         stext = generate_sel(repo)
+        gtext = generate_str(repo)
     except (Refuse, OSError, IndexError) as ex:
-        return False, f"tools/gen_args.py refuses the current Process.cpp / Process.hpp (broken tie): {ex}"
+        return False, f"tools/gen_args.py refuses the current Process.cpp / Process.hpp / String.hpp (broken tie): {ex}"
     OUT.parent.mkdir(parents=True, exist_ok=True)
-    for out, t in ((OUT, text), (OUT_PROC, ptext), (OUT_SEL, stext)):
+    for out, t in ((OUT, text), (OUT_PROC, ptext), (OUT_SEL, stext), (OUT_STR, gtext)):
         if not out.exists() or out.read_text() != t:
             out.write_text(t)
-    return True, hashlib.sha1((text + ptext + stext).encode()).hexdigest()[:12]
+    return True, hashlib.sha1((text + ptext + stext + gtext).encode()).hexdigest()[:12]
 
 
 def stats():
     """what the three generated files contain (evidence)"""
     out = {}
-    for f in (OUT, OUT_PROC, OUT_SEL):
+    for f in (OUT, OUT_PROC, OUT_SEL, OUT_STR):
         if f.exists():
             t = f.read_text()
             out[f.name] = {"definitions": len(re.findall(r"(?m)^def ", t)), "loops": len(re.findall(r"(?m)^def \w+_loop\d+ ", t)),
@@ -1486,9 +1553,10 @@ def gen(ctx):
                               "functions": ["Arguments::Arguments", "Arguments::nextChar", "Arguments::read", "Private::splitCommandLine",
                                             "Process::Process", "Process::~Process", "isRunning", "kill", "join(uint32&)", "join()",
                                             "close(uint)", "exit", "read(buffer, len)", "write", "setEnvironmentVariable",
-                                            "read(buffer, length, streams)"]}
+                                            "read(buffer, length, streams)", "String::length", "String::find(const char*, char)",
+                                            "String::compare(const char*, const char*, usize)"]}
     if ok:
-        ctx.notes.append(f"translator: Nstd/Generated/ArgsCode.lean, ArgsProc.lean and ArgsSel.lean regenerated from the current Process.cpp / Process.hpp (sha1 {msg})")
+        ctx.notes.append(f"translator: Nstd/Generated/ArgsCode.lean, ArgsProc.lean, ArgsSel.lean, ArgsStr.lean regenerated from the current Process.cpp / Process.hpp / String.hpp (sha1 {msg})")
     return ok, msg
 
 
